@@ -159,6 +159,12 @@ def _decompress_body_zstd(data: bytes, *, max_output_size: int | None = None) ->
     import zstandard
 
     declared = _zstd_content_size(data)
+    if declared == 0:
+        # The one-shot API answers b"" for a frame that declares zero bytes
+        # without decoding it, so a non-empty frame labelled as empty would
+        # pass as an empty body.  The streaming reader decodes the blocks and
+        # reports the mismatch; an honestly empty frame still yields b"".
+        declared = None
     # The one-shot API used for size-declaring frames rejects a truncated
     # frame by itself; the streaming reader used for the others does not.
     if declared is None and not _zstd_frame_complete(data):
